@@ -277,6 +277,7 @@ func TestC17(t *testing.T) {
 								}
 							}
 						}
+						ev.Sample("split-"+format, map[string]any{"format": format, "document": clip(string(doc), 300), "bytes": len(doc), "schedules": "every split point k: chunks [k] then the rest"})
 						// one-byte reads and halves
 						for _, ch := range [][]int{ones(len(doc)), {len(doc) / 2}, {1, 0, 0, 1, 0, 2}} {
 							c.Chunks, c.WithEOF = ch, false
@@ -393,6 +394,9 @@ func TestC17(t *testing.T) {
 			c.Chunks = append(c.Chunks, sz)
 		}
 		ev.Case(len(doc) > 0, fmt.Sprintf("%v", c), "random", "format-"+format)
+		if len(doc) < 400 {
+			ev.Sample("random", map[string]any{"format": format, "document": string(doc), "chunks": c.Chunks, "with_eof": c.WithEOF, "seekable": c.Seekable})
+		}
 		verdict(rt, "C17", "c17", c, checkC17)
 	})
 }
